@@ -150,3 +150,50 @@ def tags_equal(a, b):
 
 def specs_pool(rng, n_random):
     return [E.base_spec(), E.rec_spec()] + [E.random_spec(rng) for _ in range(n_random)]
+
+
+def gen_stream(rng, specs, big=False, p_valid=0.45, p_mut=0.4, mid=0.1):
+    """-> (spec, bytes, kind, nodes|None): reference encoding of a random conformant document ('valid', nodes given),
+    a mutation of one ('mutated'), a mid-document fragment ('mid': starts at a non-root element), or random bytes made of
+    spec ids / sizes / junk ('random')"""
+    sp = rng.choice(specs)
+    r = rng.random()
+    nodes = E.rand_doc(rng, sp, big=big, unknown_p=0.3)
+    try:
+        data = E.encode(nodes)
+    except AssertionError:
+        nodes = strip_enc(nodes)
+        data = E.encode(nodes)
+    if r < p_valid:
+        if rng.random() < mid:
+            # a fragment: the content of the first master (starts at a non-root element)
+            for n in nodes:
+                if n.is_master() and n.children:
+                    return sp, E.encode(n.children), "mid", None
+        return sp, data, "valid", nodes
+    if r < p_valid + p_mut:
+        m = data
+        for _ in range(rng.choice([1, 1, 1, 2, 3])):
+            m = E.mutate(rng, m)
+        return sp, m, "mutated", None
+    # random: a soup of ids from the spec, size bytes and junk
+    out = bytearray()
+    ids = list(sp.ty.keys())
+    for _ in range(rng.randint(1, 12)):
+        k = rng.random()
+        if k < 0.6:
+            out += E.id_bytes(rng.choice(ids))
+            out += rng.choice([b"\x80", b"\x81", b"\x82", b"\x88", b"\x89", b"\xff", b"\x40\x02", b"\x01\xff\xff\xff\xff\xff\xff\xff", b"\x10\x00\x00\x03", bytes([0x80 | rng.randrange(0, 12)])])
+            out += bytes(rng.getrandbits(8) for _ in range(rng.randint(0, 9)))
+        elif k < 0.8:
+            out += bytes(rng.getrandbits(8) for _ in range(rng.randint(1, 5)))
+        else:
+            out += bytes([rng.choice([0, 0, 0xFF, 0x80, 0x01, 0x40])]) * rng.randint(1, 3)
+    return sp, bytes(out), "random", None
+
+
+def rand_buffered(rng, sp, p=0.5):
+    ms = sp.masters()
+    if not ms or rng.random() > p:
+        return []
+    return sorted(set(rng.choice(ms) for _ in range(rng.choice([1, 1, 2, 3]))))
